@@ -868,5 +868,35 @@ func Int2BV(t *Term, w int) *Term {
 			return Extract(x, w-1, 0)
 		}
 	}
+	// int2bv is a ring homomorphism: distribute over ite, + - * so that
+	// conversions of bit-vector origin cancel
+	if containsBV2Int(t, 6) {
+		switch t.op {
+		case "ite":
+			return Ite(t.args[0], Int2BV(t.args[1], w), Int2BV(t.args[2], w))
+		case "+":
+			return Bin("bvadd", Int2BV(t.args[0], w), Int2BV(t.args[1], w))
+		case "-":
+			return Bin("bvsub", Int2BV(t.args[0], w), Int2BV(t.args[1], w))
+		case "*":
+			return Bin("bvmul", Int2BV(t.args[0], w), Int2BV(t.args[1], w))
+		}
+	}
 	return mk("int2bv", w, fmt.Sprint(w), nil, t)
+}
+
+func containsBV2Int(t *Term, depth int) bool {
+	if t.op == "bv2int" {
+		return true
+	}
+	if depth == 0 || t.w != SortInt {
+		return false
+	}
+	switch t.op {
+	case "ite":
+		return containsBV2Int(t.args[1], depth-1) || containsBV2Int(t.args[2], depth-1)
+	case "+", "-", "*":
+		return containsBV2Int(t.args[0], depth-1) || containsBV2Int(t.args[1], depth-1)
+	}
+	return false
 }
